@@ -19,6 +19,8 @@ int mshell_execute(char *str,
     }
 
     argc = argvc_internal_split(str, argv, SSHELL_ARGCMAX);
+    if (argc == 0) /* blank line: there is no command word */
+        return ENOENT;
 
     const struct mshell_command *it = cmdtable;
     while (it->func != NULL)
@@ -50,6 +52,8 @@ int mshell_tables_execute(char *str,
     }
 
     argc = argvc_internal_split(str, argv, SSHELL_ARGCMAX);
+    if (argc == 0) /* blank line: there is no command word */
+        return ENOENT;
 
     const struct mshell_command *const *tit = tables;
     while (*tit != NULL)
